@@ -2,6 +2,7 @@
   CRProofs.XsdDocB — C03 whole-document validity, part B: occupancies, predictions, obstacles.
 -/
 import CRProofs.XsdDocA
+import CRProofs.XsdEnumT
 
 namespace CR.C03
 open CR.Xsd CR.XmlNum CR.XmlW
@@ -88,7 +89,7 @@ theorem valid_static (p : Nat) {o : StaticObs} (h : StaticOk o) : validNode sche
       some ["obstacleTypeStatic", "shape", "initialState"] := by decide
   rw [staticNode, id_valid it_static h.1 (ts := ["obstacleTypeStatic", "shape", "initialState"])
     (by simpa [el, leaf, stateNode, Xml.name] using hm)]
-  simp only [validKids, leaf_enum "type" _ _ h.2.1, valid_shape p false h.2.2.1, valid_initialState p "initialState" h.2.2.2,
+  simp only [validKids, leaf_enum "type" _ _ (ok_static h.2.1), valid_shape p false h.2.2.1, valid_initialState p "initialState" h.2.2.2,
     Bool.and_self]
 
 theorem it_envObs : IdType "environmentObstacle" := by unfold IdType; decide
@@ -98,7 +99,7 @@ theorem valid_envObs (p : Nat) {o : EnvObs} (h : EnvObsOk o) :
   have hm : matchGroup (schema.content "environmentObstacle") ["type", "shape"] = some ["obstacleTypeEnvironment", "shape"] := by
     decide
   rw [envObsNode, id_valid it_envObs h.1 (ts := ["obstacleTypeEnvironment", "shape"]) (by simpa [el, leaf, Xml.name] using hm)]
-  simp only [validKids, leaf_enum "type" _ _ h.2.1, valid_shape p false h.2.2, Bool.and_self]
+  simp only [validKids, leaf_enum "type" _ _ (ok_environment h.2.1), valid_shape p false h.2.2, Bool.and_self]
 
 theorem it_phantom : IdType "phantomObstacle" := by unfold IdType; decide
 
@@ -114,7 +115,7 @@ theorem it_dynamic : IdType "dynamicObstacle" := by unfold IdType; decide
 
 theorem valid_dynamic (p : Nat) {o : DynObs} (h : DynOk o) : validNode schema "dynamicObstacle" (dynNode p o) = true := by
   obtain ⟨hid, hty, hsh, hinit, hs0, hpred, hser⟩ := h
-  have A := leaf_enum "type" _ _ hty
+  have A := leaf_enum "type" _ _ (ok_dynamic hty)
   have B := valid_shape p true hsh
   have C := valid_initialState p "initialState" hinit
   -- the optional parts, each with the type the content model assigns to it
